@@ -138,7 +138,10 @@ ParseKind(k, I, p, ctx, c) ==
 ParseSig(sig, i, I, p, acc, ctx) ==
   IF i > Len(sig) THEN Good(p, acc)
   ELSE IF p > I.declared
-       THEN (IF sig[i].q = "One" THEN Fault("missing", p, <<>>) ELSE Good(p, acc))
+       THEN (IF sig[i].q = "One"
+             THEN Fault("missing", p, IF sig[i].k = "LiteralContextDependentNumber" /\ LiteralWords(ctx.types, ctx.rt) = 0
+                                      THEN <<"unsupported">> ELSE <<>>)
+             ELSE Good(p, acc))
        ELSE LET ctx2 == IF sig[i].k = "PairLiteralIntegerIdRef" /\ Len(acc) >= 1 /\ acc[1].k = "IdRef"
                         THEN [ctx EXCEPT !.sel = acc[1].w[1]] ELSE ctx
                 r == ParseKind(sig[i].k, I, p, ctx2, "missing")
@@ -252,7 +255,8 @@ ErrAdmissible(f, e) ==
   \* The property names fault KINDS and asks that the error name "the kind of fault" of the first malformed
   \* instruction; it does not rank several faults of ONE instruction.  An instruction that also reaches past the
   \* end of the stream may be reported as cut short; one with a zero word count AND an unknown opcode as either.
-  /\ \/ f.cut /\ truncOK
+  /\ \/ kind = "Other"                            \* an error variant the pinned tree does not have: not judged by name
+     \/ f.cut /\ truncOK
      \/ f.class = "wc-zero" /\ f.info # <<>> /\ kind = "OpcodeUnknown" /\ e[5] = f.info[1]
      \/ f.class \in {"missing", "truncated", "inside"} /\ f.info = <<"unsupported">> /\ kind = "TypeUnsupported"
      \/ ClassAdmits(f, e, kind, truncOK)
